@@ -16,7 +16,7 @@ COQ_TARGET = "props/C15.v"
 THEOREMS = ["C15_cc_numbers", "C15_aliases", "C15_doc_copy_paste_not_aliases", "C15_rows_unique",
             "C15_doc_commands_defined", "C15_voices", "C15_rpn_addresses", "C15_meta_types",
             "C15_cc_bytes", "C15_named_controller", "C15_program", "C15_tempo", "C15_timesig", "C15_bend", "C15_rpn_nrpn",
-            "C15_roland_checksum", "C15_resets", "C15_text", "C15_utf8", "C15_model_meets_prescription"]
+            "C15_roland_checksum", "C15_roland_checksum_every_group", "C15_resets", "C15_text", "C15_utf8", "C15_model_meets_prescription"]
 DRIVERS = ["cmd", "core"]
 RULE = ("one-command programs for every spelling of command.md that has a prescription (controllers, CC/y, Voice/@, "
         "Tempo, TimeSignature, text metas, Port, PitchBend/p, RPN/NRPN and their named commands, resets, master volume/"
@@ -122,7 +122,8 @@ def cases_for(ctx, name, presc, voices):
             add([no, v], form="char" if name == "y" else "paren")
     elif kind == "Program":
         f = "char" if name == "@" else None
-        ns = list(range(1, 129)) if ctx.tier == "thorough" else [1, 2, 64, 127, 128]
+        # the whole documented domain also in the quick tier for the one-character spelling (128 cheap cases)
+        ns = list(range(1, 129)) if (ctx.tier == "thorough" or name == "@") else [1, 2, 64, 127, 128]
         for n in ns + [0, 129, -3, 1000]:
             add([n], form=f or "paren")
         for n, m, l in [(1, 0, 0), (128, 127, 127), (5, 1, 2), (26, 8, 0), (49, 0, 3), (1, 128, 0), (1, 0, 128), (0, 1, 1), (129, 1, 1)]:
@@ -131,7 +132,9 @@ def cases_for(ctx, name, presc, voices):
         for vn, no in voices:
             add([no], form=f or "paren", argsrc=vn, origin="voice")
     elif kind == "Tempo":
-        ts = list(range(10, 301)) if ctx.tier == "thorough" else [10, 11, 59, 60, 61, 119, 120, 121, 240, 299, 300]
+        # the whole documented domain also in the quick tier for the main spelling (291 cheap cases): a rounding slip shows at a
+        # single value (seeded change C15-7: 151 only)
+        ts = list(range(10, 301)) if (ctx.tier == "thorough" or name == "Tempo") else [10, 11, 59, 60, 61, 119, 120, 121, 151, 240, 299, 300]
         for t in ts + [9, 301, 0, -5, 1, 100000]:
             add([t])
     elif kind == "TimeSig":
@@ -407,6 +410,44 @@ def sysex_cases(ctx):
     for (src, h), ok in zip(rol, oks):
         if ok != "1":
             ctx.oracle_fail("Roland checksum: address + data + checksum is not 0 modulo 128", src, h, "sum mod 128 = 0", input_text=src)
+    # several {..} groups in one message: EVERY group carries its own checksum (theorem C15_roland_checksum_every_group)
+    lines, mods, srcs = [], [], []
+    for k in range(30 if ctx.tier == "quick" else 1000):
+        groups = [[rng.choice([0, 1, 0x40, 0x7f, rng.randrange(128)]) for _ in range(rng.choice([1, 3, 4, 6]))] for _ in range(rng.choice([2, 2, 3]))]
+        mids = [[rng.randrange(128) for _ in range(rng.choice([0, 0, 1, 2]))] for _ in groups]
+        toks, args = ["f0", "41", "10", "42", "12"], [0xF0, 0x41, 0x10, 0x42, 0x12]
+        for g, m in zip(groups, mids):
+            toks += ["%02x" % b for b in m] + ["{" + ",".join("%02x" % b for b in g) + "}"]
+            args += m + [-1] + g + [-2]
+        toks.append("f7")
+        args.append(0xF7)
+        src = "SysEx$=" + ",".join(toks) + ";"
+        srcs.append((src, groups, mids))
+        lines.append("compile_ev\t%s" % vlib.enc_text(src))
+        mods.append("sysex\t0\t1\t%s" % ints_field(args))
+    srcs.append(("SysEx$=f0,41,10,42,12,{40,00,7f,00},{40,01,30,05},f7;", [[0x40, 0, 0x7f, 0], [0x40, 1, 0x30, 5]], [[], []]))
+    lines.append("compile_ev\t%s" % vlib.enc_text(srcs[-1][0]))
+    mods.append("sysex\t0\t1\t%s" % ints_field([0xF0, 0x41, 0x10, 0x42, 0x12, -1, 0x40, 0, 0x7f, 0, -2, -1, 0x40, 1, 0x30, 5, -2, 0xF7]))
+    impl = ctx.impl(lines)
+    model = ctx.model(mods)
+    dec = decode_bodies(ctx, [g.split("\t")[0] for g in impl if len(g.split("\t")) >= 4])
+    it = iter(dec)
+    for (src, groups, mids), g, m in zip(srcs, impl, model):
+        f = g.split("\t")
+        ctx.count("sysex_groups", src)
+        if len(f) < 4:
+            ctx.oracle_fail("SysEx with several checksum groups does not compile", src, g[:40], "a file", input_text=src)
+            continue
+        if f[2].split("/")[0] != m:
+            ctx.disagree("sysex", src, f[2][:300], m[:300])
+        d, problem = next(it)
+        got = strip_eot(d) if d else None
+        want = "41104212"
+        for gr, mi in zip(groups, mids):
+            want += "".join("%02x" % b for b in mi) + "".join("%02x" % b for b in gr) + "%02x" % ((128 - sum(gr) % 128) % 128)
+        want = "0:SysEx(" + want + "f7)"
+        if got != want:
+            ctx.oracle_fail("Roland SysEx with several {..} groups: every group carries the checksum of its own bytes", src, (got or problem)[:300], want, input_text=src)
 
 
 # ------------------------------------------------------------------------------------------------
@@ -625,7 +666,7 @@ def run(ctx):
             text_names.append(n)
             continue
         cases += cases_for(ctx, n, p, voices)
-    cases += [Case("TempoChange", [v], origin="table") for v in [120, 10, 300, 1, 0, -3, 60000001]]
+    cases += [Case("TempoChange", [v], origin="table") for v in [120, 10, 300, 1, 0, -3, 60000001] + list(range(11, 300))]
     cases += text_cases(ctx, text_names)
     ctx.dist["spellings_with_prescription"] = sum(1 for n in prescs if prescs[n] != "NONE")
     ctx.dist["spellings_without_prescription"] = sum(1 for n in prescs if prescs[n] == "NONE")
